@@ -176,7 +176,7 @@ pub fn check(c: &ConcCase, ctx: &mut CaseCtx) -> Result<(), Fail> {
         2 => &[BUILT],
         _ => &[PRE, BUILT],
     };
-    let report = sched::run(scripts, &c.schedule, sites, Duration::from_millis(1000));
+    let report = sched::run(scripts, &c.schedule, sites, Duration::from_millis(300));
     if let Some((t, m)) = report.panics.first() {
         ctx.fail("conc:panic", format!("thread {t} panicked: {m}"))?;
         return Ok(());
